@@ -28,7 +28,7 @@ import (
 )
 
 type c10Real struct {
-	Kind     string `json:"kind"`               // register | assign | call | create | transfer
+	Kind     string `json:"kind"`               // register | assign | call-turnstile | call-registered | transfer | create | create-selfreg | create-selfreg-nocode
 	Contract int    `json:"contract"`           // index into the deployed CSRSmartContracts
 	Recv     string `json:"recv,omitempty"`     // register: recipient of the NFT
 	ID       string `json:"id,omitempty"`       // assign: NFT id
@@ -154,6 +154,12 @@ func (lv *c10Live) execReal(e *Env, c int, op *c10Op) (recorded, ok bool) {
 		// contract is registered by the time the hook looks its target up
 		to = nil
 		data = c06SelfRegisteringInit(f.ts)
+	case "create-selfreg-nocode":
+		// the same constructor, but it returns EMPTY runtime code: the genuine Turnstile emits a genuine Register event
+		// for the address being created (receipt.ContractAddress), which holds no code when the hook looks at it, so
+		// the event must be refused and the registry stay as it was
+		to = nil
+		data = c10SelfRegisteringNoCodeInit(f.ts)
 	default:
 		panic("unknown real kind " + r.Kind)
 	}
@@ -273,6 +279,25 @@ func (lv *c10Live) execReal(e *Env, c int, op *c10Op) (recorded, ok bool) {
 	return true, ok
 }
 
+// c10SelfRegisteringNoCodeInit: init code that calls Turnstile.register(tx.origin) (msg.sender = the address being
+// created) and then RETURN(0, 0): the creation succeeds, the created address is registered inside the Turnstile
+// contract, and no code is left at it.
+func c10SelfRegisteringNoCodeInit(ts common.Address) []byte {
+	sel := ethcrypto.Keccak256([]byte("register(address)"))[:4]
+	var b []byte
+	b = append(b, 0x63)
+	b = append(b, sel...)                 // PUSH4 selector
+	b = append(b, 0x60, 0xe0, 0x1b)       // PUSH1 0xe0; SHL
+	b = append(b, 0x60, 0x00, 0x52)       // PUSH1 0; MSTORE
+	b = append(b, 0x32, 0x60, 0x04, 0x52) // ORIGIN; PUSH1 4; MSTORE
+	b = append(b, 0x60, 0x00, 0x60, 0x00, 0x60, 0x24, 0x60, 0x00, 0x60, 0x00) // retLen retOff argLen argOff value
+	b = append(b, 0x73)
+	b = append(b, ts.Bytes()...)                // PUSH20 turnstile
+	b = append(b, 0x5a, 0xf1, 0x50)             // GAS; CALL; POP
+	b = append(b, 0x60, 0x00, 0x60, 0x00, 0xf3) // RETURN(0, 0)
+	return b
+}
+
 func c10GenRealOp(e *Env, lv *c10Live) c10Op {
 	var op c10Op
 	op.Real = &c10Real{Contract: e.Pick(8)}
@@ -285,8 +310,10 @@ func c10GenRealOp(e *Env, lv *c10Live) c10Op {
 		op.Real.ID = fmt.Sprint(lv.obs.csrs[e.Pick(len(lv.obs.csrs))].Id)
 	case r < 45:
 		op.Real.Kind = "create"
-	case r < 52:
+	case r < 51:
 		op.Real.Kind = "create-selfreg"
+	case r < 58:
+		op.Real.Kind = "create-selfreg-nocode"
 	case r < 80:
 		op.Real.Kind = "call-registered"
 	case r < 90:
@@ -328,12 +355,20 @@ func c10RunRealCase(e *Env, f *c10Fix, c int, suite, checker string, replay *c10
 		n = len(kase.Ops)
 	}
 	var kept []c10Op
+	forceAt := -1
+	if replay == nil {
+		forceAt = e.Pick(n)
+	}
 	for i := 0; i < n; i++ {
 		var op c10Op
 		if replay != nil {
 			op = kase.Ops[i]
 		} else {
 			op = c10GenRealOp(e, lv)
+			if i == forceAt {
+				// every generated case holds at least one creation that registers itself and leaves no code
+				op.Real.Kind, op.Real.Recv, op.Real.ID = "create-selfreg-nocode", "", ""
+			}
 			if len(kept) == 0 {
 				op.CodeOn = []string{f.pool[0].Hex(), f.pool[1].Hex(), f.pool[2].Hex()}
 			}
